@@ -61,3 +61,417 @@ Proof.
   intros i. destruct (inb s i) eqn:Hi; auto. apply den_dense_out. now rewrite Hs.
 Qed.
 End Dense.
+
+(* ================================================================ rows: sort / unique *)
+Lemma existsb_idx_eqb i l : existsb (idx_eqb i) l = true <-> In i l.
+Proof.
+  rewrite existsb_exists. split.
+  - intros (j & Hj & E). apply idx_eqb_spec in E. now subst.
+  - intros H. exists i. split; auto. apply idx_eqb_refl.
+Qed.
+
+Lemma ins_idx_perm i l : Permutation (ins_idx i l) (i :: l).
+Proof.
+  induction l as [|j r IH]; cbn; auto. destruct (idx_ltb j i); auto.
+  rewrite IH. apply perm_swap.
+Qed.
+
+Lemma sort_idx_perm l : Permutation (sort_idx l) l.
+Proof.
+  induction l as [|i l IH]; cbn; auto. rewrite ins_idx_perm. now constructor.
+Qed.
+
+Lemma dedup_In i l : In i (dedup l) <-> In i l.
+Proof.
+  induction l as [|j r IH]; cbn; [tauto|].
+  destruct (existsb (idx_eqb j) r) eqn:E.
+  - apply existsb_idx_eqb in E. rewrite IH. split; auto. intros [->|H]; auto.
+  - cbn. rewrite IH. tauto.
+Qed.
+
+Lemma dedup_NoDup l : NoDup (dedup l).
+Proof.
+  induction l as [|j r IH]; cbn; [constructor|].
+  destruct (existsb (idx_eqb j) r) eqn:E; auto.
+  constructor; auto. rewrite dedup_In. intros H. apply existsb_idx_eqb in H. congruence.
+Qed.
+
+Lemma unique_rows_In i l : In i (unique_rows l) <-> In i l.
+Proof.
+  unfold unique_rows. split; intros H.
+  - apply dedup_In. eapply Permutation_in; [apply sort_idx_perm|exact H].
+  - eapply Permutation_in; [symmetry; apply sort_idx_perm|]. now apply dedup_In.
+Qed.
+
+Lemma unique_rows_NoDup l : NoDup (unique_rows l).
+Proof.
+  unfold unique_rows. eapply Permutation_NoDup; [symmetry; apply sort_idx_perm|apply dedup_NoDup].
+Qed.
+
+Lemma dedup_length_le l : length (dedup l) <= length l.
+Proof. induction l as [|j r IH]; cbn; auto. destruct (existsb (idx_eqb j) r); cbn; lia. Qed.
+
+Lemma dedup_NoDup_id l : NoDup l -> dedup l = l.
+Proof.
+  induction 1 as [|j r Hj Hn IH]; cbn; auto.
+  destruct (existsb (idx_eqb j) r) eqn:E; [apply existsb_idx_eqb in E; contradiction|]. now rewrite IH.
+Qed.
+
+Lemma dedup_length_eq l : length (dedup l) = length l <-> NoDup l.
+Proof.
+  split.
+  - induction l as [|j r IH]; cbn; [constructor|].
+    destruct (existsb (idx_eqb j) r) eqn:E; cbn; intros H.
+    + pose proof (dedup_length_le r). lia.
+    + constructor; [|apply IH; lia]. intros Hin. apply existsb_idx_eqb in Hin. congruence.
+  - intros H. now rewrite dedup_NoDup_id.
+Qed.
+
+Lemma unique_rows_length l : length (unique_rows l) = length (dedup l).
+Proof. unfold unique_rows. apply Permutation_length, sort_idx_perm. Qed.
+
+(* ================================================================ aggregating constructor *)
+Section Agg.
+Context {V : Type} (v0 : V) (isz : V -> bool).
+Hypothesis isz_spec : forall v, isz v = true <-> v = v0.
+
+Lemma combine_map_self {A B} (g : A -> B) (l : list A) : combine l (map g l) = map (fun a => (a, g a)) l.
+Proof. induction l as [|a l IH]; cbn; auto. now rewrite IH. Qed.
+
+Section One.
+Variables (s : shape) (subs : list idx) (vals : list V) (f : list V -> V).
+Let g (i : idx) : V := f (vals_at i subs vals).
+Let R : sparse V := from_aggregator isz s subs vals f.
+
+Lemma agg_subs : ssubs R = filter (fun i => negb (isz (g i))) (unique_rows subs).
+Proof. reflexivity. Qed.
+
+Lemma agg_entries : entries R = map (fun i => (i, g i)) (ssubs R).
+Proof. unfold entries. cbn [R from_aggregator ssubs svals]. apply combine_map_self. Qed.
+
+(* which subscripts get an entry: those present in the input whose reduced value is non-zero *)
+Theorem agg_entry_iff i : In i (ssubs R) <-> In i subs /\ isz (f (vals_at i subs vals)) = false.
+Proof.
+  rewrite agg_subs, filter_In, unique_rows_In, negb_true_iff. reflexivity.
+Qed.
+
+Theorem agg_wf : Forall (fun i => inb s i = true) subs -> wf_sp isz R.
+Proof.
+  intros Hb. unfold wf_sp. cbn [R from_aggregator ssubs svals sshape]. repeat split.
+  - now rewrite map_length.
+  - apply NoDup_filter, unique_rows_NoDup.
+  - rewrite Forall_forall. intros i Hi. apply filter_In in Hi as [Hi _]. apply (proj1 (unique_rows_In _ _)) in Hi.
+    rewrite Forall_forall in Hb. auto.
+  - rewrite Forall_forall. intros v Hv. apply in_map_iff in Hv as (i & <- & Hi).
+    apply filter_In in Hi as [_ Hz]. now apply negb_true_iff in Hz.
+Qed.
+
+(* the array the result denotes: at every subscript of the input, the reducer applied to the values carrying that
+   subscript, in input order (a zero result is not stored and reads back as zero); zero everywhere else *)
+Theorem agg_den i :
+  den_sp v0 R i = if existsb (idx_eqb i) subs then f (vals_at i subs vals) else v0.
+Proof.
+  destruct (existsb (idx_eqb i) subs) eqn:E.
+  - apply existsb_idx_eqb in E. destruct (isz (g i)) eqn:Hz.
+    + rewrite den_sp_notin; [symmetry; now apply isz_spec|].
+      intros Hin. apply agg_entry_iff in Hin as [_ H]. unfold g in Hz. congruence.
+    + unfold den_sp. apply last_match_in.
+      * rewrite agg_entries, map_map. cbn [fst]. rewrite map_id. rewrite agg_subs.
+        apply NoDup_filter, unique_rows_NoDup.
+      * rewrite agg_entries. change (i, f (vals_at i subs vals)) with ((fun j => (j, g j)) i).
+        apply in_map. apply agg_entry_iff. auto.
+  - apply den_sp_notin. intros Hin. apply agg_entry_iff in Hin as [H _].
+    apply existsb_idx_eqb in H. congruence.
+Qed.
+
+Theorem agg_shape : sshape R = s.
+Proof. reflexivity. Qed.
+End One.
+
+(* the values of one group, when the subscripts are pairwise distinct *)
+Lemma vals_at_nth (subs : list idx) (vals : list V) j :
+  NoDup subs -> length subs = length vals -> j < length subs ->
+  vals_at (nth j subs []) subs vals = [nth j vals v0].
+Proof.
+  revert vals j. induction subs as [|i subs IH]; intros [|v vals] j Hn HL Hj; cbn in HL, Hj; try lia.
+  inversion Hn as [|? ? Hi Hn']; subst. unfold vals_at. cbn [combine filter fst].
+  destruct j as [|j]; cbn [nth].
+  - rewrite idx_eqb_refl. cbn [map snd]. f_equal.
+    assert (E : filter (fun e : idx * V => idx_eqb i (fst e)) (combine subs vals) = []).
+    { clear -Hi. revert vals. induction subs as [|k subs IH]; intros [|w vals]; cbn; auto.
+      rewrite idx_eqb_neq by (intro; subst; apply Hi; cbn; auto). apply IH. intros H. apply Hi. cbn; auto. }
+    now rewrite E.
+  - rewrite idx_eqb_neq.
+    + apply IH; auto; lia.
+    + intros E. apply Hi. rewrite <- E. apply nth_In. lia.
+Qed.
+End Agg.
+
+(* ================================================================ diagonal tensors *)
+Lemma repeat_inj_nat (k k' M : nat) : 1 <= M -> repeat k M = repeat k' M -> k = k'.
+Proof. destruct M; [lia|]. cbn. intros _ H. now inversion H. Qed.
+
+Lemma diag_subs_length N M : length (diag_subs N M) = N.
+Proof. unfold diag_subs. now rewrite map_length, seq_length. Qed.
+
+Lemma diag_subs_nth N M k : k < N -> nth k (diag_subs N M) [] = repeat k M.
+Proof.
+  intros H. unfold diag_subs.
+  rewrite (nth_indep _ [] ((fun k => repeat k M) 0)) by (now rewrite map_length, seq_length).
+  rewrite (map_nth (fun k => repeat k M)). now rewrite seq_nth.
+Qed.
+
+Lemma In_diag_subs i N M : In i (diag_subs N M) <-> exists k, k < N /\ i = repeat k M.
+Proof.
+  unfold diag_subs. rewrite in_map_iff. split.
+  - intros (k & <- & Hk). apply in_seq in Hk. exists k. split; [lia|reflexivity].
+  - intros (k & Hk & ->). exists k. split; auto. apply in_seq. lia.
+Qed.
+
+Lemma diag_subs_NoDup N M : 1 <= M -> NoDup (diag_subs N M).
+Proof.
+  intros HM. unfold diag_subs. apply NoDup_map_inj; [apply seq_NoDup|].
+  intros a b _ _ E. now apply (repeat_inj_nat a b M).
+Qed.
+
+Lemma inb_repeat cs k : Forall (fun d => k < d) cs -> inb cs (repeat k (length cs)) = true.
+Proof.
+  induction 1 as [|d cs Hd Hcs IH]; cbn; auto. rewrite IH, andb_true_r. now apply Nat.ltb_lt.
+Qed.
+
+Lemma diag_shape_ge N so : Forall (fun d => N <= d) (diag_shape N so).
+Proof.
+  destruct so as [s|]; cbn.
+  - rewrite Forall_forall. intros d Hd. apply in_map_iff in Hd as (x & <- & _). lia.
+  - rewrite Forall_forall. intros d Hd. apply repeat_spec in Hd. lia.
+Qed.
+
+Lemma diag_subs_inb N so :
+  Forall (fun i => inb (diag_shape N so) i = true) (diag_subs N (length (diag_shape N so))).
+Proof.
+  rewrite Forall_forall. intros i Hi. apply In_diag_subs in Hi as (k & Hk & ->).
+  apply inb_repeat. eapply Forall_impl; [|apply diag_shape_ge]. cbn. intros; lia.
+Qed.
+
+Section Diag.
+Context {V : Type} (v0 : V).
+
+(* tendiag: shape by the rule, e_k at (k,...,k), zero everywhere else — element vector longer or shorter than the shape *)
+Theorem tendiag_ok (e : list V) (so : option shape) :
+  let N := length e in let cs := diag_shape N so in let M := length cs in
+  1 <= M ->
+  dshape (tendiag v0 e so) = cs /\ wf_dense (tendiag v0 e so) /\
+  (forall k, k < N -> den_dense v0 (tendiag v0 e so) (repeat k M) = nth k e v0) /\
+  (forall i, (forall k, k < N -> i <> repeat k M) -> den_dense v0 (tendiag v0 e so) i = v0).
+Proof.
+  intros N cs M HM. unfold tendiag. fold N. fold cs. fold M.
+  split; [reflexivity|]. split; [apply wf_full|].
+  assert (Hb : Forall (fun i => inb cs i = true) (diag_subs N M)) by apply diag_subs_inb.
+  set (S := mkSp cs (diag_subs N M) e).
+  assert (HL : length (ssubs S) = length (svals S)) by (cbn; now rewrite diag_subs_length).
+  split.
+  - intros k Hk. rewrite den_full by exact Hb. fold S. unfold den_sp. apply last_match_in.
+    + rewrite map_fst_entries by exact HL. cbn. now apply diag_subs_NoDup.
+    + unfold entries. cbn [S ssubs svals]. rewrite <- (diag_subs_nth N M k Hk).
+      rewrite <- (combine_nth (diag_subs N M) e k [] v0) by (now rewrite diag_subs_length).
+      apply nth_In. rewrite combine_length, diag_subs_length. fold N. lia.
+  - intros i Hi. rewrite den_full by exact Hb. apply den_sp_notin. cbn [ssubs].
+    intros Hin. apply In_diag_subs in Hin as (k & Hk & E). now apply (Hi k).
+Qed.
+End Diag.
+
+Section SpDiag.
+Context {V : Type} (v0 : V) (vadd : V -> V -> V) (isz : V -> bool).
+Hypothesis isz_spec : forall v, isz v = true <-> v = v0.
+Hypothesis vadd_0_r : forall x, vadd x v0 = x.
+
+(* sptendiag: same array as tendiag, as a well-formed sparse tensor (zero elements are not stored) *)
+Theorem sptendiag_ok (e : list V) (so : option shape) :
+  let N := length e in let cs := diag_shape N so in let M := length cs in
+  1 <= M ->
+  sshape (sptendiag v0 vadd isz e so) = cs /\ wf_sp isz (sptendiag v0 vadd isz e so) /\
+  (forall k, k < N -> den_sp v0 (sptendiag v0 vadd isz e so) (repeat k M) = nth k e v0) /\
+  (forall i, (forall k, k < N -> i <> repeat k M) -> den_sp v0 (sptendiag v0 vadd isz e so) i = v0) /\
+  (forall k, k < N -> (In (repeat k M) (ssubs (sptendiag v0 vadd isz e so)) <-> isz (nth k e v0) = false)).
+Proof.
+  intros N cs M HM. unfold sptendiag. fold N. fold cs. fold M.
+  assert (Hv : forall k, k < N -> sumv v0 vadd (vals_at (repeat k M) (diag_subs N M) e) = nth k e v0).
+  { intros k Hk. rewrite <- (diag_subs_nth N M k Hk).
+    rewrite (vals_at_nth v0) by (auto using diag_subs_NoDup; rewrite diag_subs_length; auto).
+    cbn. apply vadd_0_r. }
+  split; [reflexivity|]. split; [apply agg_wf, diag_subs_inb|]. split; [|split].
+  - intros k Hk. rewrite (agg_den v0 isz isz_spec).
+    replace (existsb (idx_eqb (repeat k M)) (diag_subs N M)) with true; [now apply Hv|].
+    symmetry. apply existsb_idx_eqb, In_diag_subs. eauto.
+  - intros i Hi. rewrite (agg_den v0 isz isz_spec).
+    replace (existsb (idx_eqb i) (diag_subs N M)) with false; [reflexivity|].
+    symmetry. apply not_true_is_false. intros H. apply existsb_idx_eqb, In_diag_subs in H as (k & Hk & E).
+    now apply (Hi k).
+  - intros k Hk. rewrite agg_entry_iff, (Hv k Hk). split; [tauto|]. intros H. split; auto.
+    apply In_diag_subs. eauto.
+Qed.
+End SpDiag.
+
+(* ================================================================ Kruskal tensor from a function *)
+Section KFun.
+Context {V : Type} (v0 v1 : V) (vadd vmul : V -> V -> V).
+Hypothesis vmul_1_l : forall x, vmul v1 x = x.
+
+Theorem kfrom_function_ok (s : shape) (R : nat) (outs : list (list (list V))) :
+  Forall2 (fun d A => length A = d /\ Forall (fun row => length row = R) A) s outs ->
+  let K := kfrom_function v1 R outs in
+  kshape K = s /\ kweights K = repeat v1 R /\ kfactors K = outs /\ krank K = R /\ wf_k K /\
+  (forall i, inb s i = true ->
+     den_k v0 v1 vadd vmul K i = sum_n v0 vadd R (fun r => kprod v0 v1 vmul outs i r)).
+Proof.
+  intros H.
+  assert (HW : Forall (fun A => Forall (fun r : list V => length r = R) A) outs).
+  { induction H as [|d A s' outs' [_ HA] _ IH]; constructor; auto. }
+  assert (Hm : map (@nrows V) outs = s).
+  { clear HW. induction H as [|d A s' outs' [HA _] _ IH]; cbn; auto. unfold nrows at 1. now rewrite HA, IH. }
+  intros K.
+  assert (Hs : kshape K = s) by exact Hm.
+  assert (HR : krank K = R) by (unfold krank, K, kfrom_function; cbn; apply repeat_length).
+  split; [exact Hs|]. split; [reflexivity|]. split; [reflexivity|]. split; [exact HR|]. split.
+  - unfold wf_k. rewrite HR. exact HW.
+  - intros i Hi. unfold den_k. rewrite Hs, Hi, HR. apply sum_n_ext. intros r Hr.
+    cbn [K kfrom_function kweights kfactors]. rewrite (nth_repeat_lt v1 v0) by exact Hr. apply vmul_1_l.
+Qed.
+End KFun.
+
+(* ================================================================ random sparse generator: post-processing of the draws *)
+Local Open Scope Z_scope.
+Lemma scale1_lt (d : nat) (m : Z) : 0 <= m < 2 ^ 53 -> (0 < d)%nat -> (scale1 d m < d)%nat.
+Proof.
+  intros Hm Hd. unfold scale1.
+  assert (H0 : 0 <= m * Z.of_nat d / 2 ^ 53) by (apply Z.div_pos; nia).
+  assert (H1 : m * Z.of_nat d / 2 ^ 53 < Z.of_nat d) by (apply Z.div_lt_upper_bound; nia).
+  apply Nat2Z.inj_lt. rewrite Z2Nat.id by exact H0. exact H1.
+Qed.
+Local Close Scope Z_scope.
+
+Definition valid_row (s : shape) (row : list Z) : Prop :=
+  length row = length s /\ Forall (fun m => (0 <= m < 2 ^ 53)%Z) row.
+Definition valid_draw (s : shape) (d : list (list Z)) : Prop := Forall (valid_row s) d.
+
+Lemma inb_scale_row s row : Forall (fun d => 0 < d) s -> valid_row s row -> inb s (scale_row s row) = true.
+Proof.
+  intros Hs [HL Hr]. revert row HL Hr. induction Hs as [|d s Hd Hs IH]; intros [|m row] HL Hr; cbn in HL; try lia; auto.
+  inversion Hr as [|? ? Hm Hr']; subst. cbn [scale_row inb].
+  rewrite IH by (auto; lia). rewrite andb_true_r. apply Nat.ltb_lt. now apply scale1_lt.
+Qed.
+
+Definition good (s : shape) (l : list idx) : Prop := NoDup l /\ Forall (fun i => inb s i = true) l.
+
+Lemma cand_good s d : Forall (fun d => 0 < d) s -> valid_draw s d -> good s (cand s d).
+Proof.
+  intros Hs Hd. split; [apply unique_rows_NoDup|].
+  rewrite Forall_forall. intros i Hi. unfold cand in Hi. apply (proj1 (unique_rows_In _ _)) in Hi. apply in_map_iff in Hi as (row & <- & Hrow).
+  apply inb_scale_row; auto. unfold valid_draw in Hd. rewrite Forall_forall in Hd. auto.
+Qed.
+
+Lemma redraw_good fuel nz s cur ds : Forall (fun d => 0 < d) s -> Forall (valid_draw s) ds ->
+  good s cur -> good s (fst (redraw fuel nz s cur ds)).
+Proof.
+  intros Hs. revert cur ds. induction fuel as [|f IH]; intros cur ds Hds Hc; cbn [redraw]; auto.
+  destruct (length cur <? nz); auto. destruct ds as [|d ds]; auto.
+  inversion Hds; subst. cbn [fst]. apply IH; auto. now apply cand_good.
+Qed.
+
+Lemma In_firstn {A} (x : A) n l : In x (firstn n l) -> In x l.
+Proof. revert l; induction n as [|n IH]; intros [|a l]; cbn; auto; try tauto. intros [H|H]; auto. Qed.
+
+Lemma NoDup_firstn {A} n (l : list A) : NoDup l -> NoDup (firstn n l).
+Proof.
+  revert l; induction n as [|n IH]; intros [|a l] H; cbn; try constructor.
+  - inversion H; subst. intros Hin. apply In_firstn in Hin. contradiction.
+  - inversion H; subst. now apply IH.
+Qed.
+
+Section SpRand.
+Context {V : Type} (isz : V -> bool).
+
+(* whatever the draws: a well-formed sparse tensor of exactly the requested shape with at most the requested
+   number of nonzeros, values = the supplied function's output *)
+Theorem sprand_wf (nz : nat) (s : shape) (draws : list (list (list Z))) (vals : list V) :
+  Forall (fun d => 0 < d) s -> Forall (valid_draw s) draws ->
+  length vals = length (sprand_subs nz s draws) -> Forall (fun v => isz v = false) vals ->
+  wf_sp isz (sprand nz s draws vals) /\ sshape (sprand nz s draws vals) = s /\
+  svals (sprand nz s draws vals) = vals /\ nnz (sprand nz s draws vals) <= nz.
+Proof.
+  intros Hs Hd HL Hv.
+  destruct (redraw_good 10 nz s [] draws Hs Hd) as [Hn Hb]; [split; constructor|].
+  split; [|split; [reflexivity|split; [reflexivity|]]].
+  - unfold wf_sp, sprand, sprand_subs. cbn [ssubs svals sshape]. repeat split; auto.
+    + now apply NoDup_firstn.
+    + rewrite Forall_forall in *. intros i Hi. apply In_firstn in Hi. auto.
+  - unfold nnz, sprand, sprand_subs. cbn [ssubs]. rewrite firstn_length. lia.
+Qed.
+End SpRand.
+
+Lemma cand_length s d :
+  length (cand s d) <= length d /\ (length (cand s d) = length d <-> NoDup (map (scale_row s) d)).
+Proof.
+  unfold cand. rewrite unique_rows_length. split.
+  - rewrite <- (map_length (scale_row s) d). apply dedup_length_le.
+  - rewrite <- (map_length (scale_row s) d). apply dedup_length_eq.
+Qed.
+
+Definition distinct_rows (s : shape) (d : list (list Z)) : Prop := NoDup (map (scale_row s) d).
+
+Lemma redraw_length fuel nz s cur ds : Forall (fun d => length d = nz) ds -> length cur <= nz ->
+  length (fst (redraw fuel nz s cur ds)) <= nz.
+Proof.
+  revert cur ds. induction fuel as [|f IH]; intros cur ds Hds Hc; cbn [redraw]; auto.
+  destruct (length cur <? nz); auto. destruct ds as [|d ds]; auto.
+  inversion Hds; subst. cbn [fst]. apply IH; auto. apply cand_length.
+Qed.
+
+Lemma redraw_full fuel nz s cur ds : Forall (fun d => length d = nz) ds -> length cur <= nz -> fuel <= length ds ->
+  (length (fst (redraw fuel nz s cur ds)) = nz <-> length cur = nz \/ Exists (distinct_rows s) (firstn fuel ds)).
+Proof.
+  revert cur ds. induction fuel as [|f IH]; intros cur ds Hds Hc Hf; cbn [redraw firstn fst].
+  - split; auto. intros [H|H]; auto. inversion H.
+  - destruct (Nat.ltb_spec (length cur) nz) as [Hlt|Hge].
+    + destruct ds as [|d ds]; [cbn in Hf; lia|]. inversion Hds as [|? ? Hd Hds']; subst.
+      assert (Hc' : length (cand s d) <= length d) by apply cand_length.
+      assert (Hf' : f <= length ds) by (cbn in Hf; lia).
+      cbn [fst firstn]. rewrite (IH (cand s d) ds Hds' Hc' Hf').
+      rewrite Exists_cons. destruct (cand_length s d) as [_ Hiff]. rewrite Hiff. unfold distinct_rows. split.
+      * intros [H|H]; auto.
+      * intros [H|[H|H]]; auto. lia.
+    + cbn [fst]. split; auto. intros _. lia.
+Qed.
+
+(* the number of nonzeros: min(request, distinct rows of the final draw); it equals the request exactly when the request
+   is zero or one of the (at most ten) draws has pairwise distinct scaled rows *)
+Theorem sprand_count (nz : nat) (s : shape) (draws : list (list (list Z))) :
+  Forall (fun d => length d = nz) draws -> 10 <= length draws ->
+  length (sprand_subs nz s draws) = length (fst (redraw 10 nz s [] draws)) /\
+  length (sprand_subs nz s draws) = Nat.min nz (length (fst (redraw 10 nz s [] draws))) /\
+  (length (sprand_subs nz s draws) = nz <-> nz = 0 \/ Exists (distinct_rows s) (firstn 10 draws)).
+Proof.
+  intros Hd HL. pose proof (redraw_length 10 nz s [] draws Hd (Nat.le_0_l nz)) as Hle.
+  unfold sprand_subs. rewrite firstn_length. split; [lia|]. split; [reflexivity|].
+  rewrite Nat.min_r by exact Hle. rewrite (redraw_full 10 nz s [] draws Hd (Nat.le_0_l nz) HL). cbn [length].
+  split; intros [H|H]; auto.
+Qed.
+
+(* the first draw already distinct: one draw is consumed and the stored subscripts are its sorted rows *)
+Theorem sprand_first_draw (nz : nat) (s : shape) (d : list (list Z)) (ds : list (list (list Z))) :
+  0 < nz -> length d = nz -> distinct_rows s d ->
+  sprand_subs nz s (d :: ds) = cand s d /\ sprand_consumed nz s (d :: ds) = 1.
+Proof.
+  intros Hnz HL Hd. unfold sprand_subs, sprand_consumed.
+  assert (E : length (cand s d) = nz) by (rewrite <- HL; now apply cand_length).
+  assert (R : redraw 10 nz s [] (d :: ds) = (cand s d, 1)).
+  { cbn [redraw length]. destruct (Nat.ltb_spec 0 nz); [|lia]. cbn [redraw].
+    rewrite E, Nat.ltb_irrefl. reflexivity. }
+  rewrite R. cbn [fst snd]. split; auto. rewrite <- E. apply firstn_all.
+Qed.
+
+(* ================================================================ teneye, order 2 *)
+Lemma teneye_count_2 a b : teneye_count [a; b] = if Nat.eqb a b then 2 else 0.
+Proof.
+  unfold teneye_count. cbn. rewrite (Nat.eqb_sym b a). destruct (Nat.eqb a b); reflexivity.
+Qed.
